@@ -67,8 +67,8 @@ copy_sds(int32 sd_in, int32 sd_out, int32 tag, /* tag of input SDS */
         nelms,                     /* number of elements */
         dim_id,                    /* dimension ID */
         dim_out;                   /* dimension ID */
-    char          sds_name[H4_MAX_NC_NAME];
-    char          dim_name[H4_MAX_NC_NAME];
+    char          sds_name[H4_MAX_NC_NAME + 1]; /* SDgetinfo / SDdiminfo store up to H4_MAX_NC_NAME characters and the NUL */
+    char          dim_name[H4_MAX_NC_NAME + 1];
     char         *path    = NULL;
     void         *buf     = NULL;
     void         *dim_buf = NULL;
